@@ -46,8 +46,10 @@ function makeItem(b, rng, kind, st, hostInfo) {
 
 function buildFlagCase(rng, hostKind, kinds) {
   const b = new ModuleBuilder();
+  // a member-expression tag is a component even when its last segment is an HTML tag name
   const hostInfo = hostKind === 'element'
     ? { tag: { kind: 'html', name: 'input', src: 'input' }, pre: [], directive: 'vModelText', isComp: false }
+    : hostKind === 'memberHtml' ? hostOf(b, rng.pick(['memberInput', 'memberSelect', 'memberDeepTextarea']))
     : hostOf(b, 'component');
   const st = newAttrState();
   const attrs = [];
@@ -122,7 +124,7 @@ export function* generate({ tier, seed }) {
     return { gid: `C13-${n++}`, src: c.src, syntax: 'jsx', spec: c.spec, feature: `${hk}|${c.kinds.join(',')}`, variants: variants.map((o, i) => ({ vid: `v${i}`, options: o })) };
   };
   const maxLen = tier === 'quick' ? 2 : 3;
-  for (const hk of ['element', 'component']) for (const seq of sequences(ALPHABET, maxLen)) {
+  for (const hk of ['element', 'component', 'memberHtml']) for (const seq of sequences(ALPHABET, hk === 'memberHtml' ? 1 : maxLen)) {
     if (tier === 'quick') yield emit(hk, seq, [OPTS[rng.int(4)]]);
     else yield emit(hk, seq, seq.length < 3 ? OPTS : [OPTS[rng.int(4)]]);
   }
@@ -130,7 +132,7 @@ export function* generate({ tier, seed }) {
   for (let i = 0; i < nRand; i++) {
     const len = 3 + rng.int(4);
     const kinds = []; for (let j = 0; j < len; j++) kinds.push(rng.pick(ALPHABET));
-    yield emit(rng.pick(['element', 'component']), kinds, [rng.pick(OPTS)]);
+    yield emit(rng.pick(['element', 'component', 'memberHtml']), kinds, [rng.pick(OPTS)]);
   }
   const nTrees = tier === 'quick' ? 8000 : 150000;
   for (let i = 0; i < nTrees; i++) {
